@@ -2,6 +2,8 @@ use std::{cell::Cell, marker::PhantomData, ptr::NonNull};
 
 mod cell;
 use self::cell::RecorderOnceCell;
+#[cfg(metrics_verif)]
+pub(crate) use self::cell::RecorderOnceCell as VerifRecorderOnceCell;
 
 mod errors;
 pub use self::errors::SetRecorderError;
